@@ -974,6 +974,12 @@ func generateMore(suite string, seed uint64, i int, r *rng, id string, g gp) *Ca
 			if wide && cfg.P4 == 3 {
 				cfg.P4 = 1
 			}
+			if !wide && r.chance(1, 4) { // the randomised greedy breaker on a cyclic input: whatever it draws from must be per call
+				g.kind = 0
+				g.maxN, g.maxM = 7, 14
+				edges, _ = genGraph(r, g)
+				cfg.P1 = 2
+			}
 			runs = append(runs, Run{cfg, edges})
 		}
 		tmo := 60000.0
